@@ -239,15 +239,18 @@ def _replace(fn, parent, old, new):
     raise ValueError('node to replace not found')
 
 
-def normalise(fn, helpers):
-    """Normalised deep copy of the FunctionDef `fn`; second result: what was done (for the evidence)."""
+def normalise(fn, helpers, level=2):
+    """Normalised deep copy of the FunctionDef `fn`; second result: what was done (for the evidence).
+    level 0: nothing; 1: helper inlining; 2: helper inlining and string accumulators."""
     fn = copy.deepcopy(fn)
     notes = []
-    inl = inline_helpers(fn, helpers)
-    if inl:
-        notes.append('inlined single-return helpers: %s' % sorted(set(inl)))
-    acc = string_accumulators(fn)
-    if acc:
-        notes.append('list accumulators joined into a string treated as string accumulators: %s' % acc)
+    if level >= 1:
+        inl = inline_helpers(fn, helpers)
+        if inl:
+            notes.append('inlined single-return helpers: %s' % sorted(set(inl)))
+    if level >= 2:
+        acc = string_accumulators(fn)
+        if acc:
+            notes.append('list accumulators joined into a string treated as string accumulators: %s' % acc)
     ast.fix_missing_locations(fn)
     return fn, notes
